@@ -281,6 +281,9 @@ def main():
         for earlier in ((0, 1, 3) if not check.thorough else (0, 1, 2, 3, 8)):
             for size in sizes:
                 cfgs.append({'compress': compress, 'earlier': earlier, 'size': size, 'scenario': 'plain'})
+    # size-based rollover: the archive (and its journal) carry a sequence number in their names
+    for compress in (False, True):
+        cfgs.append({'compress': compress, 'earlier': 1, 'size': 60, 'scenario': 'rollover'})
     if check.thorough:
         for compress in (False, True):
             cfgs.append({'compress': compress, 'earlier': 2, 'size': 60, 'scenario': 'cdx'})
